@@ -73,6 +73,9 @@ def run(ctx, pid):
     chosen = regression(pid) + scs
     s, nlines = drive_and_judge(ctx, pid, chosen, sweep=2 if ctx.quick else 12, variants="rotate" if ctx.quick else "all",
                                 shards=6 if ctx.quick else 14)
+    if pid == "C03":
+        from checks import fnrunner_rider
+        ctx.cov["fnrunner_rider"] = fnrunner_rider.run(ctx, pid)
     ctx.cov.update(dict(
         states=states, transitions=trans, traces_validated_against_impl=s["runs"], samples=s["samples"][:2],
         model_runs=consts, scenarios_emitted=emitted, scenarios_replayed=s["scenarios"], reconciles=s["reconciles"],
@@ -94,5 +97,8 @@ def run(ctx, pid):
 def replay(ctx, pid, path):
     with open(path) as f:
         sc = json.load(f)
+    if sc.get("rider") == "fnrunner":
+        from checks import fnrunner_rider
+        return fnrunner_rider.replay(ctx, pid, path)
     s, nlines = drive_and_judge(ctx, pid, [sc], shards=1)
     ctx.cov.update(dict(states=1, transitions=1, traces_validated_against_impl=s["runs"], samples=[sc], events=nlines))
